@@ -397,11 +397,11 @@ def generate(ctx, scale=1.0, profile="all"):
     per = lambda n: max(1, int(n * scale) // ctx.ncpu)             # noqa: E731  (-simulate num is per worker)
     plans = [
         # name, cfg, traces per worker, depth
-        ("clean", doc_cfg(40, 30), per(500 if quick else 7000), 45),
+        ("clean", doc_cfg(40, 30), per(500 if quick else 5000), 45),
         ("cleanlong", doc_cfg(70, 60, maxline=9, minout=120), per(200 if quick else 2500), 75),
-        ("palette", doc_cfg(40, 30, palette=True), per(500 if quick else 9000), 45),
+        ("palette", doc_cfg(40, 30, palette=True), per(500 if quick else 6000), 45),
         ("palettelong", doc_cfg(70, 60, palette=True, maxline=9, minout=120), per(300 if quick else 3000), 75),
-        ("free", doc_cfg(30, 20, palette=True, free=True, minout=40), per(200 if quick else 4000), 35),
+        ("free", doc_cfg(30, 20, palette=True, free=True, minout=40), per(200 if quick else 3000), 35),
     ]
     if profile == "lossless":               # C07: only the clean grammar, more of it
         plans = [("clean", doc_cfg(40, 30), per(1500 if quick else 15000), 45),
@@ -467,7 +467,7 @@ def generate(ctx, scale=1.0, profile="all"):
     tiny = sorted(res.emitted, key=lambda d: json.dumps(d["out"], sort_keys=True))
     random.Random(ctx.seed).shuffle(tiny)
     n0 = len(inputs)
-    for d in tiny[:int((250 if quick else 6000) * scale)]:
+    for d in tiny[:int((250 if quick else 3000) * scale)]:
         raw = W.concretise(d)
         if raw not in seen:
             seen.add(raw)
@@ -482,7 +482,7 @@ def generate(ctx, scale=1.0, profile="all"):
             n0 = len(inputs)
             for j, k in enumerate((12, 30)):
                 r = tlc.run(ctx, "WikiTokens", TOKENS_CFG % {"k": k}, name="WikiTokens_%d" % k, deadlock=False,
-                            simulate=max(1, int((180 if quick else 2500) * scale)), depth=k + 1, seed=ctx.seed * 4 + j + 1,
+                            simulate=max(1, int((180 if quick else 1500) * scale)), depth=k + 1, seed=ctx.seed * 4 + j + 1,
                             workers=1, timeout=900, heap="4g")
                 if not r.ok:
                     raise RuntimeError("WikiTokens run failed: %s %s" % (r.kind, r.name))
@@ -631,6 +631,28 @@ def known_steps(prop):
     return sorted(set(out))
 
 
+class _SubprocessShim:
+    """what harness/tlc.py uses of `subprocess`, with one addition: the JVM gets SIGKILL when the
+    process that started it dies (PR_SET_PDEATHSIG), so a killed check leaves no orphan TLC behind"""
+    import subprocess as _sp
+    PIPE, STDOUT, TimeoutExpired = _sp.PIPE, _sp.STDOUT, _sp.TimeoutExpired
+
+    @staticmethod
+    def _die_with_parent():
+        try:
+            import ctypes
+            ctypes.CDLL("libc.so.6", use_errno=True).prctl(1, signal.SIGKILL)      # PR_SET_PDEATHSIG
+        except Exception:                                                          # noqa: BLE001
+            pass
+
+    def run(self, *a, **kw):
+        kw.setdefault("preexec_fn", self._die_with_parent)
+        return self._sp.run(*a, **kw)
+
+
+tlc.subprocess = _SubprocessShim()
+
+
 class Validation:
     def __init__(self):
         self.rejects, self.known = [], []
@@ -668,9 +690,10 @@ def validate(ctx, traces, prop, name="batch"):
         path = os.path.join(d, "shard%d.json" % i)
         write_batch(shards[i], path)
         return tlc.run(ctx, "CleanerTrace", cfg, name="CleanerTrace_%s_%d" % (name, i), workers=1, env={"TRACE_FILE": path},
-                       timeout=2400, heap="3g", deadlock=True)
+                       timeout=2400, heap="3g" if ctx.tier == "quick" else "2g", deadlock=True)
 
-    with concurrent.futures.ThreadPoolExecutor(max_workers=len(shards)) as ex:
+    # thorough: at most 8 JVMs x 2 GiB at a time (16 x 3 GiB next to the parent once exhausted the machine)
+    with concurrent.futures.ThreadPoolExecutor(max_workers=len(shards) if ctx.tier == "quick" else min(8, len(shards))) as ex:
         results = list(ex.map(one, range(len(shards))))
     for i, res in enumerate(results):
         if not res.ok:
@@ -726,6 +749,68 @@ def trees_around(trace, l):
             before = s
     s = trace["snaps"][l - 1]
     return before, (before if s["same"] else s)
+
+
+_STUBS = {}
+
+
+def lighten(trace):
+    """drop the trees of a trace that has been validated and judged; what the evidence needs stays
+    (per snapshot: pass, status, error key — shared objects; whether the first tree has a table)"""
+    snaps = trace["snaps"]
+    light = []
+    for k, s in enumerate(snaps):
+        key = (s["pass"], s["status"], s.get("errkey", ""), k == 0 and "Table" in s.get("cls", ()))
+        stub = _STUBS.get(key)
+        if stub is None:
+            stub = _STUBS[key] = {"pass": s["pass"], "status": s["status"], "errkey": s.get("errkey", ""), "stable": True, "same": True,
+                                  "cls": ["Table"] if key[3] else []}
+        light.append(stub)
+    trace["snaps"] = light
+    trace["calls"] = {p: cs for p, cs in trace.get("calls", {}).items() if any(c > 5000 for _, c in cs)}
+    trace["light"] = True
+
+
+def process(ctx, inputs, prop, report, selftest=None, round_size=2500):
+    """record -> validate -> report (-> corruption self-test).  Quick: in one go.  Thorough: in rounds
+    of round_size documents; after a round has been judged its traces are reduced to what the
+    evidence needs, so that the parent never holds more than one round of trees."""
+    if ctx.tier == "quick":
+        traces = record_all(ctx, inputs)
+        val = validate(ctx, traces, prop)
+        report(val)
+        n = selftest(traces, val) if selftest else 0
+        return traces, val, n
+    import shutil
+    order = list(inputs)
+    random.Random(ctx.seed + 1).shuffle(order)
+    for inp in order:
+        inp["doc"] = None                      # the abstract document is not needed any more
+    total = Validation()
+    all_traces = []
+    nself = 0
+    for k, start in enumerate(range(0, len(order), round_size)):
+        traces = record_all(ctx, order[start:start + round_size])
+        val = validate(ctx, traces, prop, name="round%d" % k)
+        report(val)
+        if selftest and not nself:
+            nself = selftest(traces, val)
+        for t in traces:
+            lighten(t)
+        total.states += val.states
+        total.transitions += val.transitions
+        total.expected_states += val.expected_states
+        total.traces += val.traces
+        total.rejects.extend(val.rejects)
+        total.known.extend(val.known)
+        all_traces.extend(traces)
+        shutil.rmtree(os.path.join(ctx.scratch, "traces-round%d" % k), ignore_errors=True)
+        for d in os.listdir(ctx.scratch):
+            if d.startswith("tlc-CleanerTrace_round%d_" % k):
+                shutil.rmtree(os.path.join(ctx.scratch, d), ignore_errors=True)
+        del traces, val
+    all_traces.sort(key=lambda t: t["id"])
+    return all_traces, total, nself
 
 
 def summarize(traces):
